@@ -35,6 +35,7 @@ package utils
 //@     invariant forall(k, 1 <= k && k < calls(pem.Decode) - d0, arg(pem.Decode, d0 + k, 0) == ret(pem.Decode, d0 + k - 1, 1))
 
 //@ func ParsePEMCertificate(data)
+//@   flag logged
 //@   let c0 = old(calls(ParsePEMCertificates))
 //@   ensures [first-certificate-of-the-bundle] calls(ParsePEMCertificates) == c0 + 1 && arg(ParsePEMCertificates, c0, 0) == data &&
 //@     (ret(ParsePEMCertificates, c0, 1) != nil ==> (cert == nil && err == ret(ParsePEMCertificates, c0, 1))) &&
